@@ -53,6 +53,13 @@ Definition has_hex_field_of_length (mp : obj) (name : str) (n : N) : bool :=
 Definition has_int_field (mp : obj) (name : str) : bool :=
   match jget name mp with Some (JInt _) => true | _ => false end.
 
+(* the "input" member: an int, and (when the source checks it) within 0..2^32-1 *)
+Definition has_input_field (mp : obj) : bool :=
+  match jget (s "input") mp with
+  | Some (JInt z) => if SIGN_INPUT_RANGE_CHECKED then (0 <=? z)%Z && (z <=? 4294967295)%Z else true
+  | _ => false
+  end.
+
 Definition has_str_field (mp : obj) (name : str) : bool :=
   match jget name mp with Some (JStr _) => true | _ => false end.
 
@@ -94,12 +101,12 @@ Definition validate_message (c : codes) (req : obj) (what : msg_kind) : Z :=
       let tx_ok := match what with WHash => false | _ => true end in
       if hash_ok && Nat.eqb (length m) 1 && has_hex_field_of_length m (s "hash") 32 then 0%Z
       else if tx_ok && Nat.eqb (length m) 3 && has_nonempty_hex_field m (s "tx")
-              && has_int_field m (s "input") && has_str_field m (s "sighashComputationMode")
+              && has_input_field m && has_str_field m (s "sighashComputationMode")
               && match jget (s "sighashComputationMode") m with
                  | Some j => py_eq_str j (s "legacy") | None => false end
       then 0%Z
       else if tx_ok && Nat.eqb (length m) 5 && has_nonempty_hex_field m (s "tx")
-              && has_int_field m (s "input") && has_str_field m (s "sighashComputationMode")
+              && has_input_field m && has_str_field m (s "sighashComputationMode")
               && match jget (s "sighashComputationMode") m with
                  | Some j => py_eq_str j (s "segwit") | None => false end
               && has_nonempty_hex_field m (s "witnessScript")
@@ -201,7 +208,12 @@ Definition gate_request (m : pmode) (request : json) : gate :=
           if match jget KEY_VERSION req with
              | Some v => negb (py_eq_int v (c_version c)) | None => false end
           then GReject (c_wrong_version c) else
-          if negb (hashable command) then GCrash TypeError else
+          if negb (hashable command) then
+            match (match m with V5 => GATE_UNHASHABLE_COMMAND_V5 | V1 => GATE_UNHASHABLE_COMMAND_V1 end) with
+            | Some code => GReject code
+            | None => GCrash TypeError
+            end
+          else
           match command with
           | JStr cmd =>
               if negb (str_in cmd (known_commands m)) then GReject (c_unknown_cmd c) else
